@@ -442,9 +442,15 @@ pub fn index(a: &RVal, i: &RVal) -> R {
 pub fn has(a: &RVal, k: &RVal) -> R<bool> {
     use RVal::*;
     match (a, k) {
+        (Null, _) => Ok(false),
         (Obj(o), k) => Ok(obj_get(o, k).is_some()),
         (Arr(v), Int(i)) => Ok(abs_index(i, v.len()).is_some()),
         (Str(b, true), Int(i)) => Ok(abs_index(i, b.len()).is_some()),
+        // `.[{start, end}]` is a slice, which always points into the value
+        (Arr(_) | Str(..), Obj(_)) => index(a, k).map(|_| true),
+        // `.[[...]]` yields the indices of a sub-array (derived data); the property does not decide
+        // `has` for it, the model follows the implementation
+        (Arr(_), Arr(_)) => Ok(true),
         _ => Err(()),
     }
 }
